@@ -7,6 +7,7 @@ pub mod c07;
 pub mod c08;
 pub mod c11;
 pub mod c12;
+pub mod c13;
 pub mod c14;
 pub mod c17;
 pub mod common;
@@ -29,6 +30,7 @@ pub fn run(prop: &str, tier: Tier, seed: u64) -> i32 {
         "C10" => c08::run("C10", tier, seed, &findings),
         "C11" => c11::run(tier, seed, &findings),
         "C12" => c12::run(tier, seed, &findings),
+        "C13" => c13::run(tier, seed, &findings),
         "C14" => c14::run(tier, seed, &findings),
         "C17" => c17::run("C17", tier, seed, &findings),
         "C18" => c17::run("C18", tier, seed, &findings),
@@ -64,6 +66,7 @@ pub fn replay(path: &str) -> i32 {
         "C10" => c08::replay("C10", &v, path, &findings),
         "C11" => c11::replay(&v, path, &findings),
         "C12" => c12::replay(&v, path, &findings),
+        "C13" => c13::replay(&v, path, &findings),
         "C14" => c14::replay(&v, path, &findings),
         "C17" => c17::replay("C17", &v, path, &findings),
         "C18" => c17::replay("C18", &v, path, &findings),
